@@ -13,8 +13,10 @@ import (
 	"html"
 	"math/rand"
 	"os"
+	"runtime/debug"
 	"sort"
 	"strings"
+	"sync"
 
 	"verif/core"
 	"verif/jsrun"
@@ -43,10 +45,34 @@ func Run(ctx *core.Ctx) {
 		h.Replay(ctx.ReplayPath)
 		return
 	}
-	h.ScopeModel()
-	h.Families()
-	h.RandomExprs(ctx.Pick(4000, 40000))
-	h.RandomProgs(ctx.Pick(1500, 20000))
+	// the four sources run concurrently (node pool and TLC runs are shared
+	// through semaphores); their reports are emitted afterwards in a fixed
+	// order so that the run is reproducible line by line
+	h.tlcSem = make(chan struct{}, 6)
+	phases := []func() []*report{
+		h.ScopeModel,
+		h.Families,
+		func() []*report { return h.RandomExprs(ctx.Pick(4000, 40000)) },
+		func() []*report { return h.RandomProgs(ctx.Pick(1500, 20000)) },
+	}
+	out := make([][]*report, len(phases))
+	var wg sync.WaitGroup
+	for i, ph := range phases {
+		wg.Add(1)
+		go func(i int, ph func() []*report) {
+			defer wg.Done()
+			defer func() {
+				if p := recover(); p != nil {
+					ctx.ToolError("harness panic in phase %d: %v\n%s", i, p, debug.Stack())
+				}
+			}()
+			out[i] = ph()
+		}(i, ph)
+	}
+	wg.Wait()
+	for _, rs := range out {
+		h.Emit(rs)
+	}
 	ctx.Extra["out_of_subset_reasons"] = h.reasons
 	ctx.Extra["verdicts"] = h.verdicts
 	ctx.Extra["violations_by_signature"] = h.sigs
@@ -57,6 +83,8 @@ func Run(ctx *core.Ctx) {
 type Harness struct {
 	ctx      *core.Ctx
 	run      *Runner
+	mu       sync.Mutex
+	tlcSem   chan struct{}
 	reasons  map[string]int
 	verdicts map[string]int
 	samples  int
@@ -87,9 +115,10 @@ func ExprCase(family string, e core.E, env *core.Env, st core.Style) *Case {
 }
 
 // RandomExprs is level (a): random typed expression trees.
-func (h *Harness) RandomExprs(n int) {
+func (h *Harness) RandomExprs(n int) []*report {
 	r := rand.New(rand.NewSource(h.ctx.Seed*7919 + 1))
 	batch := 4000
+	var bs batches
 	for done := 0; done < n; done += batch {
 		k := batch
 		if n-done < k {
@@ -104,14 +133,16 @@ func (h *Harness) RandomExprs(n int) {
 			st := core.Style{Parens: []int{0, 0, 1}[r.Intn(3)], Tight: r.Intn(3) == 0}
 			cases = append(cases, ExprCase("expr-random", e, env, st))
 		}
-		h.Judge(cases, "expr-random")
+		bs.start(h, cases, "expr-random")
 	}
+	return bs.wait()
 }
 
 // RandomProgs is level (b): random bundles.
-func (h *Harness) RandomProgs(n int) {
+func (h *Harness) RandomProgs(n int) []*report {
 	r := rand.New(rand.NewSource(h.ctx.Seed*104729 + 2))
 	batch := 1500
+	var bs batches
 	for done := 0; done < n; done += batch {
 		k := batch
 		if n-done < k {
@@ -125,12 +156,53 @@ func (h *Harness) RandomProgs(n int) {
 			c := &Case{Family: "prog-random", Prog: p, Style: core.Style{Parens: r.Intn(2), Tight: r.Intn(3) == 0}}
 			cases = append(cases, c)
 		}
-		h.Judge(cases, "prog-random")
+		bs.start(h, cases, "prog-random")
 	}
+	return bs.wait()
 }
 
-// Judge executes the cases on both back ends, has TLC judge them and reports.
-func (h *Harness) Judge(cases []*Case, label string) {
+// batches judges batches of cases concurrently and keeps their reports in
+// the order the batches were started.
+type batches struct {
+	wg  sync.WaitGroup
+	res [][]*report
+}
+
+func (b *batches) start(h *Harness, cases []*Case, label string) {
+	i := len(b.res)
+	b.res = append(b.res, nil)
+	b.wg.Add(1)
+	res := b.res
+	go func() {
+		defer b.wg.Done()
+		defer func() {
+			if p := recover(); p != nil {
+				h.ctx.ToolError("harness panic judging %s: %v\n%s", label, p, debug.Stack())
+			}
+		}()
+		res[i] = h.Judge(cases, label)
+	}()
+	_ = res
+}
+
+func (b *batches) wait() []*report {
+	b.wg.Wait()
+	var all []*report
+	for _, r := range b.res {
+		all = append(all, r...)
+	}
+	return all
+}
+
+// report is one judged disagreement, ready to be emitted.
+type report struct {
+	c    *Case
+	what string
+}
+
+// Judge executes the cases on both back ends, has TLC judge them, classifies
+// the disagreements and returns them (in case order) for Emit.
+func (h *Harness) Judge(cases []*Case, label string) []*report {
 	ctx := h.ctx
 	if h.fixedFiles != nil {
 		for _, c := range cases {
@@ -154,32 +226,70 @@ func (h *Harness) Judge(cases []*Case, label string) {
 		ok = append(ok, c)
 	}
 	ctx.AddEvals(int64(len(ok)))
-	ctx.Programs += int64(len(ok))
 	if len(ok) == 0 {
-		return
+		return nil
+	}
+	if h.tlcSem != nil {
+		h.tlcSem <- struct{}{}
 	}
 	_, err := Validate(ctx, ok, label)
+	if h.tlcSem != nil {
+		<-h.tlcSem
+	}
 	if err != nil {
 		ctx.ToolError("%v", err)
-		return
+		return nil
 	}
+	var reps []*report
 	for _, c := range ok {
+		key := c.Src() + fmt.Sprint(c.Prog.Data, c.Prog.IJ, c.Msgs, c.Rule)
+		h.mu.Lock()
+		ctx.Programs++
 		h.verdicts[c.Verdict]++
+		if c.Verdict == "OUT" {
+			h.reasons[c.Reason]++
+		}
+		h.mu.Unlock()
 		switch c.Verdict {
 		case "OUT":
-			h.reasons[c.Reason]++
 			continue
 		case "OK":
-			ctx.Distinct(c.Src() + fmt.Sprint(c.Prog.Data, c.Prog.IJ, c.Msgs, c.Rule))
-			if h.samples < 6 && (h.samples < 2 || label != "expr-random") {
-				h.samples++
-				ctx.Sample(map[string]interface{}{"family": c.Family, "files": c.Files, "data": c.Prog.Data, "go": c.Go.Out, "js": c.JSObs.Out})
+			ctx.Distinct(key)
+			continue
+		}
+		ctx.Distinct(key)
+		h.mu.Lock()
+		ctx.Disagree++
+		h.mu.Unlock()
+		what := fmt.Sprintf("[%s] go: err=%v %q (%s) | js: err=%v %q (%s) | spec: %q\n%s data=%v ij=%v msgs=%s",
+			c.Verdict, c.Go.Err, c.Go.Out, firstLine(c.Go.ErrText), c.JSObs.Err, c.JSObs.Out, firstLine(c.JSObs.ErrText), c.ExpOut,
+			c.Src(), c.Prog.Data, c.Prog.IJ, c.Msgs)
+		if c.Verdict != "SPEC" {
+			c.Features = h.Classify(c)
+		}
+		reps = append(reps, &report{c, what})
+	}
+	return reps
+}
+
+// Emit reports judged disagreements (sequentially, in a fixed order).
+func (h *Harness) Emit(reps []*report) {
+	for _, r := range reps {
+		c := r.c
+		if c.Verdict == "SPEC" {
+			// Go and JS agree with each other but not with the reference semantics:
+			// not a C04 violation (a C01/C02/C03/C16 matter); recorded for the notes.
+			n, _ := h.ctx.Extra["go_eq_js_ne_spec"].(int)
+			h.ctx.Extra["go_eq_js_ne_spec"] = n + 1
+			if n < 5 {
+				h.ctx.Extra[fmt.Sprintf("go_eq_js_ne_spec_example_%d", n+1)] = r.what
 			}
 			continue
 		}
-		ctx.Distinct(c.Src() + fmt.Sprint(c.Prog.Data, c.Prog.IJ, c.Msgs, c.Rule))
-		ctx.Disagree++
-		h.Report(c)
+		for _, f := range c.Features {
+			h.sigs[c.Family+"/"+f]++
+			h.ctx.Violation(core.Sig{Family: c.Family, Feature: f}, r.what, c)
+		}
 		if p := os.Getenv("VERIF_C04_DUMP"); p != "" {
 			if f, err := os.OpenFile(p, os.O_APPEND|os.O_CREATE|os.O_WRONLY, 0o644); err == nil {
 				b, _ := json.Marshal(c)
@@ -187,28 +297,6 @@ func (h *Harness) Judge(cases []*Case, label string) {
 				f.Close()
 			}
 		}
-	}
-}
-
-// Report turns a judged disagreement into a violation (or a note).
-func (h *Harness) Report(c *Case) {
-	what := fmt.Sprintf("[%s] go: err=%v %q (%s) | js: err=%v %q (%s) | spec: %q\n%s data=%v ij=%v msgs=%s",
-		c.Verdict, c.Go.Err, c.Go.Out, firstLine(c.Go.ErrText), c.JSObs.Err, c.JSObs.Out, firstLine(c.JSObs.ErrText), c.ExpOut,
-		c.Src(), c.Prog.Data, c.Prog.IJ, c.Msgs)
-	if c.Verdict == "SPEC" {
-		// Go and JS agree with each other but not with the reference semantics:
-		// not a C04 violation (C01/C02/C03 matter); recorded for the notes.
-		n, _ := h.ctx.Extra["go_eq_js_ne_spec"].(int)
-		h.ctx.Extra["go_eq_js_ne_spec"] = n + 1
-		if n < 5 {
-			h.ctx.Extra[fmt.Sprintf("go_eq_js_ne_spec_example_%d", n+1)] = what
-		}
-		return
-	}
-	c.Features = h.Classify(c)
-	for _, f := range c.Features {
-		h.sigs[c.Family+"/"+f]++
-		h.ctx.Violation(core.Sig{Family: c.Family, Feature: f}, what, c)
 	}
 }
 
@@ -237,7 +325,7 @@ func (h *Harness) Replay(path string) {
 	c.Go, c.JSObs, c.JS, c.Verdict, c.Features = core.Obs{}, core.Obs{}, nil, "", nil
 	h.verbose = true
 	h.fixedFiles = files
-	h.Judge([]*Case{c}, "replay")
+	h.Emit(h.Judge([]*Case{c}, "replay"))
 	fmt.Printf("REPLAY verdict=%s reason=%s features=%v\n go: %+v\n js: %+v\n spec: %q\n", c.Verdict, c.Reason, c.Features, c.Go, c.JSObs, c.ExpOut)
 	for _, f := range c.Files {
 		fmt.Println(f.Text)
@@ -273,6 +361,7 @@ var rewrites = []rewrite{
 	{"loop-helper-on-range-loop", RangeToList(false)},
 	{"loop-helper-on-outer-loop-var", HoistOuterHelpers},
 	{"let-reads-the-name-it-binds", SplitSelfRef},
+	{"loop-list-reads-the-name-the-loop-binds", SplitLoopSelfRef},
 	{"let-visible-after-its-block", func(p *core.Program) (*core.Program, bool) { return AlphaRename(p), true }},
 }
 
@@ -314,7 +403,7 @@ func (h *Harness) Classify(c *Case) []string {
 			continue // not applicable (compiler rejects it) or not meaning-preserving here
 		}
 		if !agree(nc.JSObs, cur.JSObs) || nc.JSObs.ErrText != cur.JSObs.ErrText {
-			if c.Family == "scope" && scopeClasses[rw.class] {
+			if c.Family == "scope" && scopeClasses[rw.class] && strings.HasPrefix(base, "let-in-") {
 				feats = append(feats, base) // the family's own structural name
 			} else {
 				feats = append(feats, rw.class)
